@@ -6,7 +6,8 @@ From PV Require Import Lib.AmmoBytes Lib.AmmoDecimal Lib.AmmoLines Model.AmmoCom
   Model.AmmoUripost Model.AmmoRaw Model.AmmoJson Model.AmmoBufio Model.AmmoBufioClients Model.AmmoSched
   Proofs.AmmoBufioProofs Proofs.AmmoBufioClientProofs Proofs.AmmoSchedProofs
   Proofs.AmmoBytesProofs Proofs.AmmoLinesProofs Proofs.AmmoDecimalProofs Proofs.AmmoUriProofs
-  Proofs.AmmoUripostProofs Proofs.AmmoRawProofs Proofs.AmmoJsonProofs.
+  Proofs.AmmoUripostProofs Proofs.AmmoRawProofs Proofs.AmmoJsonProofs
+  Model.AmmoConfigInput Model.AmmoCfgHeaders Proofs.AmmoCfgHeadersProofs.
 Import ListNotations.
 Local Open Scope N_scope.
 
@@ -247,4 +248,142 @@ Example C07_pooled_reader_refuted :
 Proof.
   exists [0; 1; 0; 1]%nat, [(1%nat, [65; 65]); (2%nat, [66])]. split; [vm_compute; reflexivity|].
   vm_compute. discriminate.
+Qed.
+
+(* ---------- round 6: the provider's configured default headers ---------- *)
+
+(* Effective headers, uri / uripost (readLine / readBlock: clone of the in-file accumulator, configured
+   names it lacks copied): for every configured map, every set of headers the entry names and every name k,
+   the merged map holds the entry's own value alone when the entry names k, otherwise all configured values. *)
+Theorem C07_cfg_line_effective :
+  forall cfg own k, mget k (line_merge cfg own) = eff_lookup cfg own k.
+Proof. exact line_merge_effective. Qed.
+Print Assumptions C07_cfg_line_effective.
+
+(* the same for http/json (Scan and readArray: clone of the configured map, Set per entity header, names
+   as written in the object and canonicalised by Set) *)
+Theorem C07_cfg_json_effective :
+  forall cfg own k, mget k (json_merge own cfg) = eff_lookup cfg (set_all own []) k.
+Proof. exact json_merge_effective. Qed.
+Print Assumptions C07_cfg_json_effective.
+
+(* so the formats agree on the effective headers of one entry *)
+Theorem C07_cfg_merges_agree :
+  forall cfg own k, mget k (line_merge cfg (set_all own [])) = mget k (json_merge own cfg).
+Proof. exact merges_agree. Qed.
+Print Assumptions C07_cfg_merges_agree.
+
+(* util.DecodeHTTPConfigHeaders yields distinct canonical names, each with at least one value; on such a
+   map EnrichRequestWithHeaders cannot hit values[0] of an empty list *)
+Theorem C07_cfg_enrich_total :
+  forall hs cfg host own, config_headers hs [] = inl cfg -> mhas HOST own = false ->
+    enrich_m host cfg own <> None.
+Proof. intros hs cfg host own H. apply enrich_m_total. exact (config_headers_mwf hs [] cfg mwf_nil H). Qed.
+Print Assumptions C07_cfg_enrich_total.
+
+(* uri with configured headers, for every configured list the provider accepts: every delivery, built by
+   Ammo.BuildRequest (NewRequest + EnrichRequestWithHeaders over a map with several values per name), is
+   the request the specification states for the entry at that place of the cyclic sequence (spec_request:
+   own headers first, configured values for names the entry does not carry, Host only as the request's Host
+   when the URL names none) - header list included. *)
+Theorem C07_uri_cfg_roundtrip :
+  forall url_parse maxtok hs cfg (items : list (uitem * lay)) (final_nl : bool) (k : nat),
+    config_headers hs [] = inl cfg ->
+    forallb (wf_uitem url_parse maxtok) items = true ->
+    uri_entries (map fst items) [] <> [] ->
+    map (sres_map (build_m url_parse))
+        (line_run_cfg cfg (uri_decode url_parse maxtok cfg0 k (render_uri items final_nl))) =
+      map SDeliver (map (spec_built url_parse cfg)
+                        (cycle_take k (uri_entries (map fst items) []) (uri_entries (map fst items) []))).
+Proof. exact uri_cfg_roundtrip. Qed.
+Print Assumptions C07_uri_cfg_roundtrip.
+
+Theorem C07_uripost_cfg_roundtrip :
+  forall url_parse hs cfg (items : list (pitem * lay)) (final_nl : bool) (k : nat),
+    config_headers hs [] = inl cfg ->
+    forallb (wf_pitem url_parse) items = true ->
+    uripost_entries (map fst items) [] <> [] ->
+    map (sres_map (build_m url_parse))
+        (line_run_cfg cfg (uripost_decode url_parse cfg0 k (render_uripost items final_nl))) =
+      map SDeliver (map (spec_built url_parse cfg)
+                        (cycle_take k (uripost_entries (map fst items) []) (uripost_entries (map fst items) []))).
+Proof. exact uripost_cfg_roundtrip. Qed.
+Print Assumptions C07_uripost_cfg_roundtrip.
+
+(* raw: the deliveries are the written buffers with the configured map next to them; whatever
+   http.ReadRequest finds in a buffer (Host, own header map without a "Host" name), BuildRequest adds
+   exactly the configured names the request lacks *)
+Theorem C07_raw_cfg_roundtrip :
+  forall hs cfg (items : list (ritem * lay)) (final_nl : bool) (k : nat),
+    config_headers hs [] = inl cfg ->
+    forallb wf_ritem items = true ->
+    raw_entries (map fst items) <> [] ->
+    raw_run_cfg cfg (raw_decode cfg0 k (render_raw items final_nl)) =
+      map SDeliver (map (raw_mentry cfg) (cycle_take k (raw_entries (map fst items)) (raw_entries (map fst items)))) /\
+    forall host own, mhas HOST own = false -> raw_enrich cfg host own = Some (spec_raw cfg host own).
+Proof. exact raw_cfg_roundtrip. Qed.
+Print Assumptions C07_raw_cfg_roundtrip.
+
+(* http/json with configured headers: the object stream (one per line / pretty-printed) and the array
+   deliver the same cyclic sequence; entity by entity the built request is the specification's request of
+   the entity's entry (same method, URL, Host, body, tag; the header list is a permutation - the
+   observation sorts it). *)
+Theorem C07_json_cfg_cyclic :
+  forall url_parse hs cfg (ents : list entity) (es : list entry) (k : nat),
+    config_headers hs [] = inl cfg ->
+    read_array url_parse ents = Some es -> es <> [] ->
+    exists mes,
+      json_stream_decode_cfg url_parse cfg cfg0 k ents JEof = map SDeliver (cycle_take k mes mes) /\
+      json_array_decode_cfg url_parse cfg cfg0 k ents = Some (map SDeliver (cycle_take k mes mes)) /\
+      Forall2 (fun e me =>
+                 match spec_request url_parse cfg e with
+                 | Some rs => exists r, build_m url_parse me = MBOk r /\ mreq_equiv r rs
+                 | None => build_m url_parse me = MBInvalid
+                 end) es mes.
+Proof. exact json_cfg_cyclic. Qed.
+Print Assumptions C07_json_cfg_cyclic.
+
+(* the loops used for that are those of Model.AmmoJson (C07_json_cyclic) with the entity step as a parameter *)
+Theorem C07_json_model_instance :
+  forall url_parse c k ents e,
+    json_stream_decode_g (entity_entry url_parse) c k ents e = json_stream_decode url_parse c k ents e /\
+    json_array_decode_g (entity_entry url_parse) c k ents = json_array_decode url_parse c k ents.
+Proof. exact json_g_instance. Qed.
+Print Assumptions C07_json_model_instance.
+
+(* non-vacuity and the counter-model.  Configured: [Content-Type: application/json], [ X-a : 1], [x-A: 2];
+   the entity names "content-type": "text/xml".  The array delivers Content-Type = text/xml alone and X-A with
+   both configured values; with Add instead of Set (counter-model) Content-Type carries both values. *)
+Definition ex_cfg_list : list bytes :=
+  [ [91; 67;111;110;116;101;110;116;45;84;121;112;101; 58; 32; 97;112;112;108;105;99;97;116;105;111;110;47;106;115;111;110; 93];
+    [91; 32; 88;45;97; 32; 58; 32; 49; 93];
+    [91; 120;45;65; 58; 32; 50; 93] ].
+Definition ex_ct : bytes := [67;111;110;116;101;110;116;45;84;121;112;101].
+Definition ex_json : bytes := [97;112;112;108;105;99;97;116;105;111;110;47;106;115;111;110].
+Definition ex_xml : bytes := [116;101;120;116;47;120;109;108].
+Definition ex_entity : entity :=
+  {| j_host := [104]; j_method := GET; j_uri := [47];
+     j_headers := [([99;111;110;116;101;110;116;45;116;121;112;101], ex_xml)]; j_tag := [116]; j_body := [] |}.
+
+Example C07_cfg_example :
+  exists cfg, config_headers ex_cfg_list [] = inl cfg /\
+    cfg = [(ex_ct, [ex_json]); ([88;45;65], [[49]; [50]])] /\
+    (exists es, read_array ex_url [ex_entity] = Some es /\ es <> []) /\
+    (exists me, json_array_decode_cfg ex_url cfg cfg0 2 [ex_entity] = Some [SDeliver me; SDeliver me] /\
+       me_headers me = [(ex_ct, [ex_xml]); ([88;45;65], [[49]; [50]])]).
+Proof.
+  eexists. split; [vm_compute; reflexivity|]. split; [reflexivity|].
+  split; [eexists; split; [vm_compute; reflexivity|discriminate]|].
+  eexists. split; vm_compute; reflexivity.
+Qed.
+
+Example C07_cfg_add_refuted :
+  exists cfg own k,
+    config_headers ex_cfg_list [] = inl cfg /\
+    mget k (json_merge_add own cfg) <> eff_lookup cfg (set_all own []) k /\
+    mget k (json_merge_add own cfg) = Some [ex_json; ex_xml] /\
+    mget k (json_merge own cfg) = Some [ex_xml].
+Proof.
+  eexists. exists (j_headers ex_entity), ex_ct.
+  split; [vm_compute; reflexivity|]. split; [vm_compute; discriminate|]. split; vm_compute; reflexivity.
 Qed.
